@@ -65,7 +65,8 @@ theorem sort_is_sorted (U : Universe) (vs : Nat) : RankSorted U (rankSort U (U.c
 
 /-- (c) answers do not depend on the cache state: a repeated query returns identical contents. -/
 theorem answer_state_independent (U : Universe) (peek peek' : Bool) (st st' : St) (op : Op)
-    (hop : ∀ s, op ≠ .available s) : (step U peek st op).2 = (step U peek' st' op).2 := by
+    (hop : ∀ s, op ≠ .available s ∧ op ≠ .depsStart s ∧ op ≠ .depsDrop s ∧ op ≠ .depsFinish s) :
+    (step U peek st op).2 = (step U peek' st' op).2 := by
   cases op with
   | candidates n => rfl
   | matching vs => rfl
@@ -75,7 +76,10 @@ theorem answer_state_independent (U : Universe) (peek peek' : Bool) (st st' : St
     | single vs => rfl
     | union u => simp only [step]; split <;> split <;> rfl
   | deps s => rfl
-  | available s => exact absurd rfl (hop s)
+  | available s => exact absurd rfl (hop s).1
+  | depsStart s => exact absurd rfl (hop s).2.1
+  | depsDrop s => exact absurd rfl (hop s).2.2.1
+  | depsFinish s => exact absurd rfl (hop s).2.2.2
 
 theorem fetchCands_idem (U : Universe) (st : St) (n : Nat) :
     fetchCands U (fetchCands U st n) n = fetchCands U st n := by
@@ -107,5 +111,18 @@ theorem repeat_no_call (U : Universe) (peek : Bool) (st : St) :
 theorem available_iff (U : Universe) (peek : Bool) (st : St) (s : Nat) :
     (step U peek st (.available s)).2 = .bool true ↔ (s ∈ st.fetchedDeps ∨ s ∈ st.hinted) := by
   simp only [step, Ans.bool.injEq, Bool.or_eq_true, List.contains_iff_mem]
+
+/-- … in particular a dependency request that is merely in flight, or was abandoned, does not make a solvable available:
+    starting or dropping a request changes the answer of no availability query -/
+theorem inflight_not_available (U : Universe) (peek : Bool) (st : St) (s t : Nat) :
+    (step U peek (step U peek st (.depsStart s)).1 (.available t)).2 = (step U peek st (.available t)).2 ∧
+    (step U peek (step U peek st (.depsDrop s)).1 (.available t)).2 = (step U peek st (.available t)).2 := by
+  constructor
+  · simp only [step]
+    split
+    · rfl
+    · split <;> rfl
+  · simp only [step]
+    split <;> rfl
 
 end Resolvo.C20
